@@ -1,18 +1,33 @@
 //! C06: a source that fails to compile leaves no trace in the compiler.
 //!
-//! For generated [A.., bad, B..] vs [A.., B..]: digest of the compiled tables
-//! (hook `Rules::verif_c06_digest`), scan dumps in normal and fast-scan mode,
-//! errors()/ignored_rules() accounting, build() and scans under `catch`.
+//! For generated [A.., bad, B..] vs [A.., B..] (namespaces, linters and ignored
+//! modules in play): digest of the compiled tables (hook
+//! `Rules::verif_c06_digest`), scan dumps in normal and fast-scan mode,
+//! errors()/ignored_rules() accounting, build() and scans. Every case runs in a
+//! child process: a panic inside a host function called from WASM cannot unwind
+//! and aborts the process.
 use std::panic::AssertUnwindSafe;
 use std::path::Path;
 use verif_harness::util::*;
 
 #[derive(Clone, Debug)]
-struct Src { text: String, expect_fail: bool, kind: &'static str }
+struct Src { ns: usize, text: String }
+
+#[derive(Clone, Debug)]
+struct Case {
+    pre: Vec<Src>, bad: Src, post: Vec<Src>,
+    kind: String,
+    slow_err: bool, lint: bool, ignore_mod: bool,
+    /// number of entries the bad source must add to errors(): [min, max]
+    exp_errors: (usize, usize),
+    /// number of entries it must add to ignored_rules()
+    exp_ignored: usize,
+    /// add_source(bad) must return Err
+    exp_err: bool,
+}
 
 const WORDS: [&str; 6] = ["alpha", "bravo", "charlie", "delta", "echo1", "fox"];
 
-/// a pattern definition + whether it can be anchored at 0
 fn gen_pattern(rng: &mut Rng, name: &str) -> String {
     let w = WORDS[rng.below(WORDS.len() as u64) as usize];
     match rng.below(6) {
@@ -36,40 +51,42 @@ fn gen_use(rng: &mut Rng, name: &str) -> String {
     }
 }
 
-fn gen_good(rng: &mut Rng, id: usize, shared: &mut Vec<String>) -> Src {
+/// rule header honouring the linters when they are on: name ^OK_, meta author, no tags
+fn header(lint: bool, name: &str) -> (String, &'static str) {
+    if lint { (format!("rule OK_{}", name), "meta: author = \"me\" ") } else { (format!("rule {}", name), "") }
+}
+
+fn gen_good(rng: &mut Rng, ns: usize, name: &str, lint: bool, shared: &mut Vec<String>) -> Src {
     let np = 1 + rng.below(3) as usize;
     let mut pats = vec![];
     let mut uses = vec![];
     for k in 0..np {
-        let name = format!("p{}", k);
+        let pname = format!("p{}", k);
         let def = if !shared.is_empty() && rng.chance(1, 3) {
-            // share a pattern verbatim with an earlier rule (same text after the name)
-            let s = rng.pick(shared).clone();
-            format!("${} = {}", name, s)
+            format!("${} = {}", pname, rng.pick(shared))
         } else {
-            let d = gen_pattern(rng, &name);
+            let d = gen_pattern(rng, &pname);
             shared.push(d.splitn(2, " = ").nth(1).unwrap().to_string());
             d
         };
         pats.push(def);
-        uses.push(gen_use(rng, &name));
+        uses.push(gen_use(rng, &pname));
     }
     let extra = match rng.below(4) { 0 => " and filesize < 1000", 1 => " and filesize > 2", _ => "" };
-    let text = format!("rule g{} {{ strings: {} condition: ({}){} }}", id, pats.join(" "),
-        uses.join(if rng.chance(1, 2) { " or " } else { " and " }), extra);
-    Src { text, expect_fail: false, kind: "good" }
+    let (h, meta) = header(lint, name);
+    let joiner = if rng.chance(1, 2) { " or " } else { " and " };
+    Src { ns, text: format!("{} {{ {}strings: {} condition: ({}){} }}", h, meta, pats.join(" "), uses.join(joiner), extra) }
 }
 
-fn gen_bad(rng: &mut Rng, id: usize, shared: &[String], good_ids: &[usize]) -> Src {
+fn gen_bad(rng: &mut Rng, ns: usize, id: usize, lint: bool, slow_err: bool, ignore_mod: bool,
+           shared: &[String], good_names: &[String]) -> (Src, String, (usize, usize), usize, bool) {
     // patterns of the same rule that are registered before the failure
     let k = rng.below(4) as usize;
     let mut pats = vec![];
     let mut uses = vec![];
     for j in 0..k {
         let name = format!("q{}", j);
-        let def = if !shared.is_empty() && rng.chance(1, 2) {
-            format!("${} = {}", name, rng.pick(shared))
-        } else { gen_pattern(rng, &name) };
+        let def = if !shared.is_empty() && rng.chance(1, 2) { format!("${} = {}", name, rng.pick(shared)) } else { gen_pattern(rng, &name) };
         pats.push(def);
         uses.push(gen_use(rng, &name));
     }
@@ -78,29 +95,54 @@ fn gen_bad(rng: &mut Rng, id: usize, shared: &[String], good_ids: &[usize]) -> S
     let strings = |extra: &str| -> String {
         if pre.is_empty() && extra.is_empty() { String::new() } else { format!("strings: {}{} ", pre, extra) }
     };
-    let kind = rng.below(10);
-    let (text, kindname): (String, &'static str) = match kind {
-        0 => (format!("rule bad{} {{ {}condition: {} }}", id, strings(""), cond_pre.trim_end_matches(" and ").to_string() + " and and"), "syntax"),
-        1 if !good_ids.is_empty() => (format!("rule g{} {{ {}condition: {}true }}", rng.pick(good_ids), strings(""), cond_pre), "duplicate-rule"),
-        2 => (format!("rule bad{} {{ {}condition: {}unknown_ident_{} }}", id, strings(""), cond_pre, id), "unknown-identifier"),
-        3 => (format!("rule bad{} {{ {}condition: {}(1 + \"a\" == 2) }}", id, strings(""), cond_pre), "type-error"),
-        4 => (format!("rule bad{} {{ {}condition: {}$z }}", id, strings("$z = \"abc\" xor nocase"), cond_pre), "invalid-modifier"),
-        5 => (format!("rule bad{} {{ {}condition: {}true }}", id, strings("$unused = \"zzz\""), cond_pre), "unused-pattern"),
-        6 => (format!("rule bad{} {{ {}condition: {}$z }}", id, strings("$z = /(abc)*/"), cond_pre), "regexp-matches-empty"),
-        7 => (format!("rule bad{} {{ {}condition: {}$z }}", id, strings("$z = /a*/"), cond_pre), "regexp-matches-empty"),
-        8 => (format!("rule bad{} {{ {}condition: {}$z }}", id, strings("$z = /ab(c/"), cond_pre), "invalid-regexp"),
-        _ => (format!("rule bad{} {{ {}condition: {}$q0 }}", id, strings(&format!("$q0 = \"dup{}\"", id)), cond_pre), "duplicate-pattern-or-ok"),
+    let (h, meta) = header(lint, &format!("bad{}", id));
+    let one = (1usize, 1usize);
+    let mut kinds: Vec<u32> = (0..9).collect();
+    if !good_names.is_empty() { kinds.push(9); }
+    if slow_err { kinds.extend([10, 10, 11, 11]); }
+    if lint { kinds.extend([12, 12, 12]); }
+    if ignore_mod { kinds.extend([13, 13]); }
+    let kind = *rng.pick(&kinds);
+    let (text, kindname, exp_errors, exp_ignored, exp_err): (String, &str, (usize, usize), usize, bool) = match kind {
+        0 => (format!("{} {{ {}{}condition: {}true and and }}", h, meta, strings(""), cond_pre), "syntax", (1, 50), 0, true),
+        1 => (format!("{} {{ {}{}condition: {}unknown_ident_{} }}", h, meta, strings(""), cond_pre, id), "unknown-identifier", one, 1, true),
+        2 => (format!("{} {{ {}{}condition: {}(1 + \"a\" == 2) }}", h, meta, strings(""), cond_pre), "type-error", one, 1, true),
+        3 => (format!("{} {{ {}{}condition: {}$z }}", h, meta, strings("$z = \"abc\" xor nocase"), cond_pre), "invalid-modifier", one, 1, true),
+        4 => (format!("{} {{ {}{}condition: {}true }}", h, meta, strings("$unused = \"zzz\""), cond_pre), "unused-pattern", one, 1, true),
+        5 => (format!("{} {{ {}{}condition: {}$z }}", h, meta, strings("$z = /(abc)*/"), cond_pre), "regexp-matches-empty", one, 1, true),
+        6 => (format!("{} {{ {}{}condition: {}$z }}", h, meta, strings("$z = /a*/"), cond_pre), "regexp-matches-empty", one, 1, true),
+        7 => (format!("{} {{ {}{}condition: {}$z }}", h, meta, strings("$z = /ab(c/"), cond_pre), "invalid-regexp", one, 1, true),
+        8 => (format!("{} {{ {}{}condition: {}for any i in (1..3) : ( i == undefined_in_loop_{} ) }}", h, meta, strings(""), cond_pre, id), "unknown-identifier-in-loop", one, 1, true),
+        9 => { let n = rng.pick(good_names).clone();
+               let (hh, m) = header(lint, &n);
+               (format!("{} {{ {}{}condition: {}true }}", hh, m, strings(""), cond_pre), "duplicate-rule", one, 1, true) }
+        10 => (format!("{} {{ {}{}condition: {}#z > 1 }}", h, meta, strings("$z = /a.*b/"), cond_pre), "slow-regexp-as-error", one, 1, true),
+        // a slow literal AND a condition error inside a loop body: two error paths in one rule
+        11 => (format!("{} {{ {}{}condition: {}$z and for any i in (1..3) : ( i == undefined_in_loop_{} ) }}", h, meta,
+                       strings("$z = { 00 00 00 00 00 00 }"), cond_pre, id), "slow-literal+loop-error", one, 1, true),
+        // a rule violating three linters at once: all three errors must be recorded
+        12 => (format!("rule lowercase_bad{} : evil {{ {}condition: {}true }}", id, strings(""), cond_pre), "three-linter-errors", (3, 3), 1, true),
+        // a rule using an ignored module is skipped, listed in ignored_rules(), not an error
+        _ => (format!("{} {{ {}{}condition: {}ghost_module.some_field == {} }}", h, meta, strings(""), cond_pre, id), "uses-ignored-module", (0, 0), 1, false),
     };
-    Src { text, expect_fail: true, kind: kindname }
+    (Src { ns, text }, kindname.to_string(), exp_errors, exp_ignored, exp_err)
 }
 
 struct Compiled { rules: Option<yara_x::Rules>, add_results: Vec<bool>, n_errors: usize, n_ignored: usize, build_panic: bool }
 
-fn compile(srcs: &[Src], slow_err: bool) -> Compiled {
+fn compile(srcs: &[Src], case: &Case) -> Compiled {
     let mut c = yara_x::Compiler::new();
-    c.error_on_slow_pattern(slow_err);
+    c.error_on_slow_pattern(case.slow_err);
+    if case.ignore_mod { c.ignore_module("ghost_module"); }
+    if case.lint {
+        c.add_linter(yara_x::linters::rule_name("^OK_").unwrap().error(true));
+        c.add_linter(yara_x::linters::metadata("author").required(true).error(true));
+        c.add_linter(yara_x::linters::tags_allowed(vec!["good".to_string()]).error(true));
+    }
     let mut add_results = vec![];
+    let mut cur = usize::MAX;
     for s in srcs {
+        if s.ns != cur { c.new_namespace(&format!("ns{}", s.ns)); cur = s.ns; }
         let r = catch(AssertUnwindSafe(|| c.add_source(s.text.as_str()).is_ok()));
         add_results.push(r.unwrap_or(false));
     }
@@ -116,8 +158,7 @@ fn scan_dump(rules: &yara_x::Rules, data: &[u8], fast: bool) -> String {
     let r = catch(AssertUnwindSafe(|| {
         let mut s = yara_x::Scanner::new(rules);
         s.fast_scan(fast);
-        let res = s.scan(data).map_err(|e| e.to_string());
-        match res {
+        match s.scan(data).map_err(|e| e.to_string()) {
             Err(e) => format!("ERR {}", e),
             Ok(res) => {
                 let mut out = vec![];
@@ -127,7 +168,7 @@ fn scan_dump(rules: &yara_x::Rules, data: &[u8], fast: bool) -> String {
                         let ms: Vec<String> = p.matches().map(|m| format!("{}+{}", m.range().start, m.range().len())).collect();
                         ps.push(format!("{}:[{}]", p.identifier(), ms.join(",")));
                     }
-                    out.push(format!("{}{{{}}}", r.identifier(), ps.join(" ")));
+                    out.push(format!("{}:{}{{{}}}", r.namespace(), r.identifier(), ps.join(" ")));
                 }
                 out.join(" ")
             }
@@ -170,40 +211,56 @@ fn main() {
 }
 
 /// Result of evaluating one case on the implementation.
-#[derive(Default, Debug)]
-struct Outcome { bad_failed: bool, good_rejected: bool, recorded: bool, others_same: bool, build_ok: bool,
-                 scans_equal: bool, no_panic: bool, comps: Vec<(String, bool)> }
+#[derive(Default, Debug, Clone)]
+struct Outcome {
+    bad_returned_err: bool, good_rejected: bool, errors_delta: i64, ignored_delta: i64, others_same: bool,
+    build_ok: bool, scans_equal: bool, no_panic: bool, comps: Vec<(String, bool)>,
+}
 
-/// Child process: reads {"pre":[..],"bad":"..","post":[..],"slow":bool,"seed":n} on stdin and
-/// prints `OUT <fields>`; a scan that aborts the process (a panic inside a host
-/// function called from WASM cannot unwind) kills only the child.
+fn srcs_json(v: &[Src]) -> serde_json::Value { serde_json::json!(v.iter().map(|s| serde_json::json!([s.ns, s.text])).collect::<Vec<_>>()) }
+fn srcs_from(v: &serde_json::Value) -> Vec<Src> {
+    v.as_array().unwrap().iter().map(|x| Src { ns: x[0].as_u64().unwrap() as usize, text: x[1].as_str().unwrap().to_string() }).collect()
+}
+fn case_json(c: &Case, seed: u64) -> serde_json::Value {
+    serde_json::json!({"pre": srcs_json(&c.pre), "bad": srcs_json(&[c.bad.clone()]), "post": srcs_json(&c.post), "kind": c.kind,
+        "slow": c.slow_err, "lint": c.lint, "ignore_mod": c.ignore_mod, "exp_errors": [c.exp_errors.0, c.exp_errors.1],
+        "exp_ignored": c.exp_ignored, "exp_err": c.exp_err, "seed": seed})
+}
+fn case_from(v: &serde_json::Value) -> Case {
+    Case { pre: srcs_from(&v["pre"]), bad: srcs_from(&v["bad"])[0].clone(), post: srcs_from(&v["post"]), kind: v["kind"].as_str().unwrap().to_string(),
+           slow_err: v["slow"].as_bool().unwrap(), lint: v["lint"].as_bool().unwrap(), ignore_mod: v["ignore_mod"].as_bool().unwrap(),
+           exp_errors: (v["exp_errors"][0].as_u64().unwrap() as usize, v["exp_errors"][1].as_u64().unwrap() as usize),
+           exp_ignored: v["exp_ignored"].as_u64().unwrap() as usize, exp_err: v["exp_err"].as_bool().unwrap() }
+}
+
+fn outcome_line(tag: &str, o: &Outcome) -> String {
+    format!("{} {} {} {} {} {} {} {} {} {}", tag, o.bad_returned_err, o.good_rejected, o.errors_delta, o.ignored_delta, o.others_same, o.build_ok,
+        o.scans_equal, o.no_panic, o.comps.iter().map(|(k, e)| format!("{}={}", k, e)).collect::<Vec<_>>().join(","))
+}
+
 fn child() -> i32 {
     quiet_panics();
     let mut inp = String::new();
     std::io::Read::read_to_string(&mut std::io::stdin(), &mut inp).unwrap();
     let v: serde_json::Value = serde_json::from_str(&inp).unwrap();
-    let strs = |k: &str| -> Vec<Src> { v[k].as_array().unwrap().iter().map(|x| Src { text: x.as_str().unwrap().to_string(), expect_fail: false, kind: "good" }).collect() };
-    let pre = strs("pre"); let post = strs("post");
-    let bad = Src { text: v["bad"].as_str().unwrap().to_string(), expect_fail: true, kind: "bad" };
-    let slow_err = v["slow"].as_bool().unwrap();
+    let case = case_from(&v);
     let mut rng = Rng(v["seed"].as_u64().unwrap());
-    let o = evaluate(&pre, &bad, &post, slow_err, &mut rng);
-    // flush what we know before scanning is done inside evaluate; print final line
-    println!("OUT {} {} {} {} {} {} {} {}", o.bad_failed, o.good_rejected, o.recorded, o.others_same, o.build_ok, o.scans_equal, o.no_panic,
-        o.comps.iter().map(|(k, e)| format!("{}={}", k, e)).collect::<Vec<_>>().join(","));
+    let o = evaluate(&case, &mut rng);
+    println!("{}", outcome_line("OUT", &o));
     0
 }
 
-fn evaluate(pre: &[Src], bad: &Src, post: &[Src], slow_err: bool, rng: &mut Rng) -> Outcome {
-    let mut with: Vec<Src> = pre.to_vec(); with.push(bad.clone()); with.extend(post.iter().cloned());
-    let mut without: Vec<Src> = pre.to_vec(); without.extend(post.iter().cloned());
-    let cw = compile(&with, slow_err);
-    let co = compile(&without, slow_err);
-    let bad_idx = pre.len();
+fn evaluate(case: &Case, rng: &mut Rng) -> Outcome {
+    let mut with: Vec<Src> = case.pre.clone(); with.push(case.bad.clone()); with.extend(case.post.iter().cloned());
+    let mut without: Vec<Src> = case.pre.clone(); without.extend(case.post.iter().cloned());
+    let cw = compile(&with, case);
+    let co = compile(&without, case);
+    let bad_idx = case.pre.len();
     let mut o = Outcome::default();
-    o.bad_failed = !cw.add_results[bad_idx];
+    o.bad_returned_err = !cw.add_results[bad_idx];
     o.good_rejected = !co.add_results.iter().all(|x| *x);
-    o.recorded = cw.n_errors > co.n_errors;
+    o.errors_delta = cw.n_errors as i64 - co.n_errors as i64;
+    o.ignored_delta = cw.n_ignored as i64 - co.n_ignored as i64;
     o.others_same = true;
     for (i, r) in co.add_results.iter().enumerate() {
         let j = if i < bad_idx { i } else { i + 1 };
@@ -216,8 +273,7 @@ fn evaluate(pre: &[Src], bad: &Src, post: &[Src], slow_err: bool, rng: &mut Rng)
         let dout = digest_components(&ro.verif_c06_digest());
         for ((k, v1), (_, v2)) in dw.iter().zip(dout.iter()) { o.comps.push((k.clone(), v1 == v2)); }
         // tell the parent what is known so far, in case a scan aborts the process
-        println!("PRE {} {} {} {} {} {}", o.bad_failed, o.good_rejected, o.recorded, o.others_same, o.build_ok,
-            o.comps.iter().map(|(k, e)| format!("{}={}", k, e)).collect::<Vec<_>>().join(","));
+        println!("{}", outcome_line("PRE", &o));
         let mut bufrng = rng.fork();
         for b in buffers(&mut bufrng) {
             for fast in [false, true] {
@@ -231,51 +287,82 @@ fn evaluate(pre: &[Src], bad: &Src, post: &[Src], slow_err: bool, rng: &mut Rng)
     o
 }
 
-fn parse_comps(s: &str) -> Vec<(String, bool)> {
-    s.split(',').filter_map(|kv| kv.split_once('=')).map(|(k, v)| (k.to_string(), v == "true")).collect()
+fn parse_outcome(l: &str, died_scanning: bool) -> Outcome {
+    let f: Vec<&str> = l.split(' ').collect();
+    let b = |s: &str| s == "true";
+    Outcome { bad_returned_err: b(f[1]), good_rejected: b(f[2]), errors_delta: f[3].parse().unwrap(), ignored_delta: f[4].parse().unwrap(),
+              others_same: b(f[5]), build_ok: b(f[6]), scans_equal: b(f[7]) && !died_scanning, no_panic: b(f[8]) && !died_scanning,
+              comps: f.get(9).unwrap_or(&"").split(',').filter_map(|kv| kv.split_once('=')).map(|(k, v)| (k.to_string(), v == "true")).collect() }
 }
 
 /// Parent side: run one case in a child process.
-fn run_in_child(pre: &[Src], bad: &Src, post: &[Src], slow_err: bool, seed: u64) -> Outcome {
+fn run_in_child(case: &Case, seed: u64) -> Option<Outcome> {
     use std::io::Write;
     use std::process::{Command, Stdio};
-    let spec = serde_json::json!({"pre": pre.iter().map(|s| s.text.clone()).collect::<Vec<_>>(), "bad": bad.text,
-                                  "post": post.iter().map(|s| s.text.clone()).collect::<Vec<_>>(), "slow": slow_err, "seed": seed});
     let mut ch = Command::new(std::env::current_exe().unwrap()).arg("--child")
         .stdin(Stdio::piped()).stdout(Stdio::piped()).stderr(Stdio::null()).spawn().unwrap();
-    ch.stdin.take().unwrap().write_all(spec.to_string().as_bytes()).unwrap();
+    ch.stdin.take().unwrap().write_all(case_json(case, seed).to_string().as_bytes()).unwrap();
     let out = ch.wait_with_output().unwrap();
     let text = String::from_utf8_lossy(&out.stdout).to_string();
-    let b = |s: &str| s == "true";
+    if let Some(l) = text.lines().find(|l| l.starts_with("OUT ")) { return Some(parse_outcome(l, false)); }
+    if let Some(l) = text.lines().find(|l| l.starts_with("PRE ")) { return Some(parse_outcome(l, true)); }
+    // died while compiling or building
     let mut o = Outcome::default();
-    if let Some(l) = text.lines().find(|l| l.starts_with("OUT ")) {
-        let f: Vec<&str> = l.split(' ').collect();
-        o = Outcome { bad_failed: b(f[1]), good_rejected: b(f[2]), recorded: b(f[3]), others_same: b(f[4]), build_ok: b(f[5]),
-                      scans_equal: b(f[6]), no_panic: b(f[7]), comps: parse_comps(f.get(8).unwrap_or(&"")) };
-    } else if let Some(l) = text.lines().find(|l| l.starts_with("PRE ")) {
-        // the child died while scanning: a crash of the scanner
-        let f: Vec<&str> = l.split(' ').collect();
-        o = Outcome { bad_failed: b(f[1]), good_rejected: b(f[2]), recorded: b(f[3]), others_same: b(f[4]), build_ok: b(f[5]),
-                      scans_equal: false, no_panic: false, comps: parse_comps(f.get(6).unwrap_or(&"")) };
-    } else {
-        // died before/while building
-        o.bad_failed = true; o.build_ok = false;
-    }
-    o
+    o.bad_returned_err = case.exp_err; o.build_ok = false;
+    Some(o)
 }
 
-fn corpus() -> Vec<(Vec<Src>, Src, Vec<Src>, bool)> {
-    let g = |t: &str| Src { text: t.to_string(), expect_fail: false, kind: "good" };
-    let b = |t: &str, k: &'static str| Src { text: t.to_string(), expect_fail: true, kind: k };
-    vec![
-        // anchored literal registered, then a regexp of the same rule fails
-        (vec![], b("rule bad { strings: $a = \"abcd\" $b = /a*/ condition: $a at 0 and $b }", "regexp-matches-empty"),
-         vec![g("rule good { strings: $a = \"alpha\" condition: $a }")], false),
-        // a pattern shared with an earlier rule has its fast-scan bit cleared by the failing rule
-        (vec![g("rule g0 { strings: $p0 = \"alpha\" condition: $p0 }")],
-         b("rule bad { strings: $q0 = \"alpha\" $z = /a*/ condition: #q0 > 1 and $z }", "regexp-matches-empty"),
-         vec![], false),
-    ]
+fn corpus() -> Vec<Case> {
+    let s = |ns: usize, t: &str| Src { ns, text: t.to_string() };
+    let base = |pre: Vec<Src>, bad: Src, post: Vec<Src>, kind: &str| Case { pre, bad, post, kind: kind.to_string(), slow_err: false, lint: false,
+        ignore_mod: false, exp_errors: (1, 1), exp_ignored: 1, exp_err: true };
+    let mut v = vec![
+        // (fixed) anchored literal registered, then a regexp of the same rule fails
+        base(vec![], s(0, "rule bad { strings: $a = \"abcd\" $b = /a*/ condition: $a at 0 and $b }"),
+             vec![s(0, "rule good { strings: $a = \"alpha\" condition: $a }")], "regexp-matches-empty"),
+        // (fixed) a pattern shared with an earlier rule has its fast-scan bit cleared by the failing rule
+        base(vec![s(0, "rule g0 { strings: $p0 = \"alpha\" condition: $p0 }")],
+             s(0, "rule bad { strings: $q0 = \"alpha\" $z = /a*/ condition: #q0 > 1 and $z }"), vec![], "regexp-matches-empty"),
+    ];
+    // slow literal + error inside a loop body, then a new namespace re-using a rule name
+    let mut c = base(vec![s(0, "rule foo { condition: true }")],
+        s(0, "rule bad { strings: $z = { 00 00 00 00 00 00 } condition: $z and for any i in (1..3) : ( i == undefined_in_loop ) }"),
+        vec![s(1, "rule foo { condition: true }"), s(1, "rule uses_i { condition: filesize > 0 }")], "slow-literal+loop-error");
+    c.slow_err = true;
+    v.push(c);
+    v
+}
+
+fn gen_case(rng: &mut Rng) -> Case {
+    let mut shared = vec![];
+    let lint = rng.chance(1, 5);
+    let slow_err = rng.chance(1, 4);
+    let ignore_mod = rng.chance(1, 5);
+    let npre = rng.below(4) as usize;
+    let npost = rng.below(3) as usize;
+    let mut ns = 0usize;
+    let mut pre = vec![];
+    let mut names = vec![];
+    for i in 0..npre {
+        if i > 0 && rng.chance(1, 3) { ns += 1; }
+        let name = format!("g{}", i);
+        pre.push(gen_good(rng, ns, &name, lint, &mut shared));
+        names.push(name);
+    }
+    // names visible in the bad rule's namespace
+    let visible: Vec<String> = pre.iter().zip(names.iter()).filter(|(s, _)| s.ns == ns).map(|(_, n)| n.clone()).collect();
+    let (bad, kind, exp_errors, exp_ignored, exp_err) = gen_bad(rng, ns, npre, lint, slow_err, ignore_mod, &shared, &visible);
+    let mut post = vec![];
+    for i in 0..npost {
+        // later sources often open a new namespace and re-use earlier rule names there
+        if rng.chance(1, 2) { ns += 1; }
+        let name = if ns > 0 && rng.chance(1, 2) { format!("g{}", i) } else { format!("h{}", i) };
+        let fresh_in_ns = !pre.iter().zip(names.iter()).any(|(s, n)| s.ns == ns && *n == name)
+            && !post.iter().any(|(s, n): &(Src, String)| s.ns == ns && *n == name);
+        let name = if fresh_in_ns { name } else { format!("k{}_{}", ns, i) };
+        post.push((gen_good(rng, ns, &name, lint, &mut shared), name));
+    }
+    Case { pre, bad, post: post.into_iter().map(|p| p.0).collect(), kind, slow_err, lint, ignore_mod, exp_errors, exp_ignored, exp_err }
 }
 
 pub fn run(args: &[String]) -> i32 {
@@ -290,45 +377,37 @@ pub fn run(args: &[String]) -> i32 {
     let mut distinct = std::collections::HashSet::new();
     let mut samples = vec![];
     let mut corpus = corpus();
-    while shards.total < n {
-        let (pre, bad, post, slow_err) = if !corpus.is_empty() { corpus.remove(0) } else {
-            let mut shared = vec![];
-            let mut good_ids = vec![];
-            let npre = rng.below(4) as usize;
-            let npost = rng.below(3) as usize;
-            let mut pre = vec![];
-            for i in 0..npre { pre.push(gen_good(&mut rng, i, &mut shared)); good_ids.push(i); }
-            let slow_err = rng.chance(1, 6);
-            let mut bad = gen_bad(&mut rng, npre, &shared, &good_ids);
-            if slow_err && rng.chance(1, 2) {
-                bad = Src { text: format!("rule bad{} {{ strings: $q0 = {} $z = /a.*b/ condition: #q0 > 1 and $z }}", npre,
-                    if shared.is_empty() { "\"alpha\"".to_string() } else { rng.pick(&shared).clone() }), expect_fail: true, kind: "slow-pattern-error" };
-            }
-            let mut post = vec![];
-            for i in 0..npost { post.push(gen_good(&mut rng, 100 + i, &mut shared)); }
-            (pre, bad, post, slow_err)
-        };
-        let o = run_in_child(&pre, &bad, &post, slow_err, rng.next());
-        stats.inc(&format!("bad_kind:{}", bad.kind));
-        stats.inc(if o.bad_failed { "bad_rejected" } else { "bad_accepted(not a C06 case)" });
-        if o.good_rejected { stats.inc("good_rejected(generator)"); }
-        if !o.bad_failed { continue; } // the "bad" source compiled: not a case for this property
-        let (recorded, others_same, build_ok, scans_equal, no_panic, comps) =
-            (o.recorded, o.others_same, o.build_ok, o.scans_equal, o.no_panic, o.comps.clone());
-        let key = format!("{}|{}|{}", pre.len(), bad.kind, bad.text);
-        distinct.insert(key);
-        if comps.iter().any(|c| !c.1) { stats.inc("digest_differs"); }
-        if !scans_equal { stats.inc("scans_differ"); }
-        if !no_panic { stats.inc("scan_panics"); }
-        let case = format!("mkCase {} {} {} {} {} {}",
-            coq_list(&comps, |(k, eq)| format!("({}, {})", coq_string(k), coq_bool(*eq))),
-            coq_bool(recorded), coq_bool(others_same), coq_bool(build_ok), coq_bool(scans_equal), coq_bool(no_panic));
-        let replay = format!("{{\"pre\":{},\"bad\":{},\"bad_kind\":{},\"post\":{},\"error_on_slow_pattern\":{},\"digest_equal\":{},\"recorded\":{},\"others_same\":{},\"build_ok\":{},\"scans_equal\":{},\"no_panic\":{}}}",
-            json_str(&pre.iter().map(|s| s.text.clone()).collect::<Vec<_>>().join("\n")), json_str(&bad.text), json_str(bad.kind),
-            json_str(&post.iter().map(|s| s.text.clone()).collect::<Vec<_>>().join("\n")), slow_err,
-            json_str(&format!("{:?}", comps)), recorded, others_same, build_ok, scans_equal, no_panic);
+    let mut attempts = 0usize;
+    while shards.total < n && attempts < n * 4 {
+        attempts += 1;
+        let case = if !corpus.is_empty() { corpus.remove(0) } else { gen_case(&mut rng) };
+        let o = match run_in_child(&case, rng.next()) { Some(o) => o, None => continue };
+        stats.inc(&format!("bad_kind:{}", case.kind));
+        if o.good_rejected { stats.inc("good_rejected(generator)"); continue; }
+        if case.exp_err && !o.bad_returned_err { stats.inc("bad_accepted(not a C06 case)"); continue; }
+        if case.lint { stats.inc("with_linters"); }
+        if case.ignore_mod { stats.inc("with_ignored_module"); }
+        if case.slow_err { stats.inc("error_on_slow_pattern"); }
+        if case.pre.iter().chain(case.post.iter()).map(|s| s.ns).max().unwrap_or(0) > 0 { stats.inc("several_namespaces"); }
+        let outcome_ok = o.bad_returned_err == case.exp_err;
+        let recorded = o.errors_delta >= case.exp_errors.0 as i64 && o.errors_delta <= case.exp_errors.1 as i64;
+        let ignored_ok = o.ignored_delta == case.exp_ignored as i64;
+        distinct.insert(format!("{}|{}|{}", case.pre.len(), case.kind, case.bad.text));
+        if o.comps.iter().any(|c| !c.1) { stats.inc("digest_differs"); }
+        if !o.scans_equal { stats.inc("scans_differ"); }
+        if !o.no_panic { stats.inc("scan_crashes"); }
+        if !recorded { stats.inc("errors_not_recorded"); }
+        if !ignored_ok { stats.inc("ignored_rules_mismatch"); }
+        let coq_case = format!("mkCase {} {} {} {} {} {}",
+            coq_list(&o.comps, |(k, eq)| format!("({}, {})", coq_string(k), coq_bool(*eq))),
+            coq_bool(recorded && ignored_ok && outcome_ok), coq_bool(o.others_same), coq_bool(o.build_ok), coq_bool(o.scans_equal), coq_bool(o.no_panic));
+        let fmt_srcs = |v: &[Src]| v.iter().map(|s| format!("// ns{}\n{}", s.ns, s.text)).collect::<Vec<_>>().join("\n");
+        let replay = format!("{{\"pre\":{},\"bad\":{},\"bad_kind\":{},\"post\":{},\"error_on_slow_pattern\":{},\"linters\":{},\"ignore_module\":{},\"digest_equal\":{},\"errors_delta\":{},\"expected_errors\":[{},{}],\"ignored_delta\":{},\"expected_ignored\":{},\"bad_returned_err\":{},\"recorded\":{},\"others_same\":{},\"build_ok\":{},\"scans_equal\":{},\"no_panic\":{}}}",
+            json_str(&fmt_srcs(&case.pre)), json_str(&fmt_srcs(&[case.bad.clone()])), json_str(&case.kind), json_str(&fmt_srcs(&case.post)),
+            case.slow_err, case.lint, case.ignore_mod, json_str(&format!("{:?}", o.comps)), o.errors_delta, case.exp_errors.0, case.exp_errors.1,
+            o.ignored_delta, case.exp_ignored, o.bad_returned_err, recorded && ignored_ok && outcome_ok, o.others_same, o.build_ok, o.scans_equal, o.no_panic);
         if samples.len() < 3 { samples.push(replay.clone()); }
-        shards.push(case, replay);
+        shards.push(coq_case, replay);
     }
     shards.flush();
     println!("{{\"evaluations\":{},\"distinct_nontrivial\":{},\"shards\":{},\"distribution\":{},\"samples\":[{}]}}",
